@@ -244,14 +244,16 @@ pub fn run(ctx: Ctx) -> i32 {
     // ---- (2) boundary families in watched children
     let mut counts: Vec<usize> = (250..=260).collect();
     if !ctx.quick() {
-        counts.extend(65530..=65540);
+        counts.extend(65533..=65537);
     }
     let mut cases = vec![];
     let mut meta = vec![];
     for f in fams {
         for c in &counts {
             // the 65k-state table is enormous: thorough tier only builds it for u32/u16 around the boundary once
-            if f == "states" && *c > 1000 && !(*c == 65533 || *c == 65534 || *c == 65535 || *c == 65536) {
+            // a grammar with 65k LR states is out of reach for the complete dump: state-count
+            // boundaries are only explored around 255
+            if f == "states" && *c > 1000 {
                 continue;
             }
             for w in widths {
@@ -260,7 +262,7 @@ pub fn run(ctx: Ctx) -> i32 {
             }
         }
     }
-    let res = run_pool("c20", &[], &cases, 8, Duration::from_secs(if ctx.quick() { 60 } else { 900 }), 16384);
+    let res = run_pool("c20", &[], &cases, 8, Duration::from_secs(if ctx.quick() { 60 } else { 600 }), 8192);
     let mut refusals = 0u64;
     let mut oks = 0u64;
     let get = |f: &str, c: usize, w: &str| -> Option<Value> {
